@@ -255,7 +255,7 @@ impl Prop for C02 {
                 _ => format!("{} = {}", name, text),
             };
         }
-        if arith::has_date_triple(&toks) {
+        if arith::has_date_triple(&toks) || arith::text_has_date_triple(&text) {
             return Verdict::pass(text, "excluded-date-triple", false, String::new(), 0);
         }
         let want = arith::eval(&case.expr);
